@@ -18,6 +18,7 @@ import TonVerif.Proofs.TlTable
 import TonVerif.Proofs.TlFuel
 import TonVerif.Proofs.TlBare
 import TonVerif.Proofs.TlVec
+import TonVerif.Proofs.TlMono
 
 namespace TonVerif.Properties.C14
 open TonVerif TonVerif.Spec.Tl TonVerif.Model.Tl TonVerif.Proofs.Tl
@@ -102,6 +103,25 @@ theorem c14_reparse_objects (T : Table) (hT : TableOK T) :
   refine ⟨fun c v b hc h => ?_, fun x y l hl => reparse_many T hT x y l hl⟩
   obtain ⟨fs, body, rfl, _, hb, rfl⟩ := h
   exact reparse_one T hT c hc fs body hb
+
+/-- the depth budget is monotone for EVERY table and EVERY input: a parse that returns with budget `fuel` returns the
+same value and consumed count with every larger budget (more budget can only turn "recursion too deep" into a result);
+hence a normal form that exists (`some w`) at a large budget is the normal form at every larger budget. -/
+theorem c14_fuel_monotone (T : Table) :
+    (∀ (auto : Bool) (d : Bytes) (fuel fuel' : Nat) (r : Val × Nat), fuel ≤ fuel' →
+      deserialize T auto fuel d = some r → deserialize T auto fuel' d = some r) ∧
+    (∀ (c : Ctor) (v : Val) (bs : Bytes), TableOK T → c ∈ T.ctors → tlEncode T (fun _ => True) c v bs →
+      ∃ N, ∀ fuel fuel' w, N ≤ fuel → fuel ≤ fuel' → normalize T fuel c v = some w → normalize T fuel' c v = some w) := by
+  refine ⟨fun auto d fuel fuel' r hf hr => deserialize_mono T auto d fuel fuel' hf r hr, fun c v bs hT hc h => ?_⟩
+  obtain ⟨N, hN⟩ := c14_roundtrip_auto T hT c hc v bs h
+  refine ⟨N, fun fuel fuel' w h1 h2 hw => ?_⟩
+  have a := (hN fuel h1 []).2
+  have b := (hN fuel' (by omega) []).2
+  rw [hw] at a
+  rw [deserialize_mono T true _ fuel fuel' h2 _ a] at b
+  cases hn : normalize T fuel' c v with
+  | none => rw [hn] at b; simp at b
+  | some w' => rw [hn] at b; simp only [Option.map_some, Option.some.injEq, Prod.mk.injEq, and_true] at b; rw [b]
 
 /-- "fuel suffices": if no constructor of the table reaches itself through bare references (`NoBareCycle T R`: bare
 references nest at most `R` deep), then for ANY input `d` (well formed or not) and either mode the recursion depth of
